@@ -92,6 +92,21 @@ AssocAll == (Family = "merge" /\ stage = 3) => SameSets(UnionF(UnionF(x, y), z),
 Associative == (Family = "merge" /\ stage = 3 /\ EdgeClosed(x) /\ EdgeClosed(y) /\ EdgeClosed(z)) =>
   SameSets(UnionF(UnionF(x, y), z), UnionF(x, UnionF(y, z)))
 
+(* --------- agreement with the set-level algebra proved in GraphAlgebra.tla (TLAPS) --------- *)
+GA == INSTANCE GraphAlgebra
+ViewOf(l) == [ids |-> Ids(l), tri |-> Triples(l), roots |-> Roots(l)]
+ViewAgreement == (Family = "merge" /\ stage = 2) =>
+  /\ ViewOf(UnionF(x, y)) = GA!UnionV(ViewOf(x), ViewOf(y))
+  /\ ViewOf(AddF(x, y)) = GA!UnionV(ViewOf(x), ViewOf(y))
+  /\ ViewOf(IntersectLo(x, y)) = GA!InterLo(ViewOf(x), ViewOf(y))
+  /\ ViewOf(IntersectHi(x, y)) = GA!InterHi(ViewOf(x), ViewOf(y))
+  /\ \A D \in SUBSET (IdsU \cup {Ghost}) :
+        /\ ViewOf(RemoveF(x, D)) = GA!RemoveV(ViewOf(x), D)
+        /\ ViewOf(RemoveKeepRootsF(x, D)) = GA!RemoveKeepRootsV(ViewOf(x), D)
+  /\ \A at \in IdsU \cup {Ghost}, t \in TypesU :
+        ViewOf(RelateListF(x, y, at, t)) = GA!RelateListV(ViewOf(x), ViewOf(y), at, t)
+  /\ (Closed(x) <=> GA!Closed(ViewOf(x))) /\ (EdgeClosed(x) <=> GA!EdgeClosed(ViewOf(x)))
+
 (* --------------------------------- C15 ---------------------------------- *)
 ExtractLaws == (Family = "extract" /\ stage = 2) =>
   \A s \in IdsU :
